@@ -59,10 +59,10 @@ for pid in sys.argv[1:]:
             continue
         rc_t, out_t = sh("/venv/bin/python -m pytest -q -p no:cacheprovider -x 2>&1 | tail -2", wt)
         tests_ok = "330 passed" in out_t
-        rc_d, out_d = sh("/venv/bin/python %s/demo.py" % d, wt)
+        rc_d, out_d = sh("PYTHONPATH=%s /venv/bin/python %s/demo.py" % (wt, d), wt)
         det = check_all(wt, base)
         sh("git checkout -- . && git clean -fdq", wt)
-        rc_c, out_c = sh("/venv/bin/python %s/demo.py" % d, wt)
+        rc_c, out_c = sh("PYTHONPATH=%s /venv/bin/python %s/demo.py" % (wt, d), wt)
         summary[name] = {"tests_pass_with_patch": tests_ok, "demo_rc_with_patch": rc_d, "demo_rc_clean": rc_c, "detected_by": det,
                          "demo_tail": out_d.strip().splitlines()[-1][:200] if out_d.strip() else ""}
         print(name, "tests_ok=%s demo_with=%d demo_clean=%d" % (tests_ok, rc_d, rc_c), "DETECTED by " + ",".join(sorted(det)) if det else "MISSED", flush=True)
